@@ -16,9 +16,9 @@ RULE = (
 )
 BOUNDS = {
     "quick": "2 names x 2 source files x 3 contents, 13 operations, all histories to depth 5 (BFS with canonical-state de-duplication)",
-    "thorough": "same alphabet, depth 7",
+    "thorough": "same alphabet, depth 8",
 }
-DEPTH = {"quick": 5, "thorough": 7}
+DEPTH = {"quick": 5, "thorough": 8}
 BUDGET = {"quick": 500, "thorough": 3400}
 CHUNK = 25
 ASSUMPTIONS = [
